@@ -61,6 +61,44 @@ def extra(ex, ck, worst):
                                       cap=c09_bound(n) + 1)
                         k = (strategy, n)
                         worst[k] = max(worst.get(k, 0), run1.tests)
-    # minimize-collapse-brace (line mode): the model gets the re-load through the line splitter
+    # minimize-collapse-brace: concrete model (re-split through the modelled splitters)
+    for data in (b"{\n\n}\n", b"a\n{\n \n}\nb\n", b"x{\n}y\n{\n}\n", b"{\n{\n}\n}\n", b"{ \n\t\n}\n" * 3):
+        for atom in ("line", "char", "symbol"):
+            for cfg in cfgs[:3]:
+                runs = ex.dfs("minimize-collapse-brace", cfg, None, file0=data, atom=atom, load=True,
+                              stream="dfs-collapse", max_runs=40 if quick else 400)
+                n = tc_len(runs[0].loaded)
+                k = ("minimize-collapse-brace/" + atom, n)
+                worst[k] = max(worst.get(k, 0), max(x.tests for x in runs))
+    for n in (20, 60):
+        data = b"".join(r.choice([b"{\n", b"}\n", b"\n", b" \n", b"x\n"]) for _ in range(n))
+        for v in ("Y" * 20000, "Y" + "NY" * 10000, "Y"):
+            ex.one("minimize-collapse-brace", {}, None, data, v, atom="line", load=True, stream="long-collapse",
+                   cap=c09_bound(n) + 1)
+    # rewriting strategies: bound (B+2)^2 on B bytes of reducible text, cap enforced by the test
+    corpus = [b"function foo(a) {}\nfoo(function foo(x){})\n", b"function foo(a) {}\nfoo(3)\n",
+              b"x.y.z = 1;\nq.y.z = 2;\nx.y.w();\n", b"function f(a,b) {\n return a.c + b.c;\n}\nf(1, 2);\nf(3);\n",
+              b"(function (a, b) { return a; })(1, 2)\n", b"g = function(q) {};\ng(g(1));\n",
+              b"a.b.c.d.e = a.b.c;\n" * 3]
+    for data in corpus:
+        parts = data.splitlines(keepends=True)
+        tc = (b"", parts, [True] * len(parts), b"")
+        B = len(data)
+        for strategy in ("replace-properties-by-globals", "replace-arguments-by-globals"):
+            for cfg in ({}, {"repeat": "always"}, {"repeat": "never"}):
+                for v in ("Y" * 100000, "Y", "Y" + "NY" * 50000, "Y" + "YN" * 50000):
+                    bound = (B + 2) ** 2
+                    run1 = ex.one(strategy, cfg, tc, data, v, stream="rewriters", replay=True,
+                                  cap=min(bound, 400) + 1, model=False)
+                    ck.nontrivial((strategy, data, v[:3], tuple(cfg.items())))
+                    if run1.exc == "CapHit" or run1.tests > bound or run1.exc not in (None,):
+                        grew = any(len(d2) > len(d1) for (_, d1, a1), (_, d2, _) in zip(run1.seen, run1.seen[1:]))
+                        key = "replace-arguments-unbounded" if (strategy == "replace-arguments-by-globals"
+                                                                and run1.exc == "CapHit" and grew) else None
+                        ck.violation(f"{strategy} on {data!r} with verdicts {v[:6]}...: {run1.tests} tests "
+                                     f"(cap {min(bound, 400)}, bound (B+2)^2 = {bound}), exc={run1.exc}, last file "
+                                     f"{len(run1.seen[-1][1])} bytes vs original {B}",
+                                     {"strategy": strategy, "data": data.hex(), "cfg": cfg, "verdicts": v[:10],
+                                      "tests": run1.tests, "exc": run1.exc}, key=key)
     ck.cov["worst_case_tests"] = {f"{k[0]}/n={k[1]}": {"tests": v, "bound": c09_bound(k[1])}
                                   for k, v in worst.items()}
